@@ -158,6 +158,27 @@ def math_spec():
     return s
 
 
+def classkern_spec(m=0, perm=None):
+    """26 x 26 kerning classes with sparse class-to-class kerning (what GPOS compaction is made for)."""
+    d = 10 * m
+    letters = [chr(ord("A") + i) for i in range(26)]
+    G = {".notdef": {"width": 500}}
+    groups, kerning = {}, []
+    for i, c in enumerate(letters):
+        for suffix in ("", ".alt"):
+            g = {"width": 500 + d, "contours": [box(50, 0, 450 + d, 700)]}
+            if not suffix:
+                g["unicodes"] = [ord(c)]
+            G[c + suffix] = g
+        groups["public.kern1." + c] = [c, c + ".alt"]
+        groups["public.kern2." + c] = [c, c + ".alt"]
+    for i, left in enumerate(letters):
+        for j in (i, (i + 1) % 26, (i + 7) % 26):
+            kerning.append(("public.kern1." + left, "public.kern2." + letters[j], -10 - i - j - m))
+    return {"glyphs": G, "order": list(G), "groups": groups, "kerning": kerning,
+            "info": {"styleName": "Regular" if m == 0 else "Bold"}, "lib": {}}
+
+
 STATIC = ["compileTTF", "compileOTF", "compileOTF-cff2"]
 DSFN = ["compileVariableTTF", "compileVariableCFF2", "compileInterpolatableTTFsFromDS"]
 # static compile of the default master of a designspace (after the variable build has run on the same objects)
@@ -175,6 +196,8 @@ INPUTS = {
                  "fns": DSFN_INFO,
                  "dslib": {"public.fontInfo": {"familyName": "Override", "versionMajor": 7, "ascender": 950,
                                                "openTypeOS2TypoAscender": 940, "italicAngle": -9}}},
+    "ds2+ftconfig": {"kind": "ds", "specs": lambda perm=None: [classkern_spec(0), classkern_spec(1)],
+                     "locs": [400, 700], "fns": DSFN_INFO, "ftconfig": True},
     "ds3sparse": {"kind": "ds", "specs": lambda perm=None: [rich_spec(0, perm), rich_spec(1, perm)], "locs": [400, 700],
                   "sparse": 550},
 }
@@ -183,6 +206,19 @@ INPUTS = {
 def _propagate_spec(perm):
     s = rich_spec(0, perm)
     s["lib"][F + "filters"] = [{"name": "propagateAnchors", "pre": True}]
+    # a "ligature mark" made of two marks without anchors of its own: the filter promotes the
+    # component closest to the origin to a base.  brevecomb's exact bounds are farther from the origin
+    # than acutecomb's, its control points are nearer (exact vs control bounds rank them differently)
+    s["glyphs"]["brevecomb"] = {
+        "width": 0, "unicodes": [0x306],
+        "contours": [[(20, 50, "line"), (0, 0, None), (100, 0, None), (80, 50, "curve"), (80, 90, "line"),
+                      (20, 90, "line")]],
+        "anchors": [("_top", 50, 40), ("top", 50, 120)]}
+    s["glyphs"]["acutecomb_brevecomb"] = {
+        "width": 0, "components": [("acutecomb", (1, 0, 0, 1, 0, 0)), ("brevecomb", (1, 0, 0, 1, 0, 0))]}
+    s["order"] = list(s["glyphs"])
+    s["lib"]["public.openTypeCategories"]["brevecomb"] = "mark"
+    s["lib"]["public.openTypeCategories"]["acutecomb_brevecomb"] = "mark"
     return s
 
 
@@ -258,9 +294,13 @@ def main():
     job = json.load(sys.stdin)
     out = {"orders": {k: list(set(v)) for k, v in TRACKED.items()}, "results": {},
            "hashseed": os.environ.get("PYTHONHASHSEED")}
-    opts = INPUTS[job["input"]].get("opts", {})
+    opts = dict(INPUTS[job["input"]].get("opts", {}))
     for v in job["variants"]:
         try:
+            if INPUTS[job["input"]].get("ftconfig"):
+                # ONE options object kept by the caller for all calls of the history
+                from fontTools.otlLib.optimize.gpos import COMPRESSION_LEVEL
+                opts["ftConfig"] = {COMPRESSION_LEVEL: 9}
             src = build(job["input"], v)
             res = None
             for i, fn in enumerate(v["history"]):
